@@ -34,6 +34,7 @@ type Prop struct {
 	ID        string
 	Level     string
 	Harnesses []H
+	Extra     []H
 	Conform   []H // concrete scenarios compared engine vs native
 	Assume    []string
 	Bounds    string
@@ -166,7 +167,7 @@ func cmdCheck(args []string) int {
 
 	// 2. harnesses
 	var hs []H
-	for _, h := range prop.Harnesses {
+	for _, h := range append(append([]H{}, prop.Harnesses...), prop.Extra...) {
 		if h.Tier != "" && h.Tier != tier {
 			continue
 		}
